@@ -10,6 +10,7 @@ import (
 	"net"
 	"net/netip"
 	"reflect"
+	"slices"
 	"strconv"
 	"sync"
 	"time"
@@ -364,6 +365,13 @@ func (a *Agent) gatherCandidatesLocal(ctx context.Context, networkTypes []Networ
 			}
 
 			for network := range networks {
+				// The transports and the address families of the enabled network types are
+				// collected separately: skip the combinations that are not enabled themselves.
+				if networkType, err := determineNetworkType(network, mappedIP); err != nil ||
+					!slices.Contains(networkTypes, networkType) {
+					continue
+				}
+
 				type connAndPort struct {
 					conn net.PacketConn
 					port int
